@@ -608,6 +608,11 @@ def check_cases(ctx, eng, cases, cov, dist, distinct, rng):
         case = dict({k: v for k, v in c.items() if not k.startswith("_")}, origin=origin)
         if len(cov["samples"]) < 4 and key is not None and origin == "random" and len(c["files"]) <= 5:
             cov["samples"].append({"case": case, "observed": o1})
+        if o1["rc"] not in (0, 1) and all(eng.run(c)["rc"] in (0, 1) for _ in range(5)):
+            # a one-off abnormal end that does not come back in 5 re-runs: counted, not reported for C17
+            dist["transient_abnormal_exit"] = dist.get("transient_abnormal_exit", 0) + 1
+            ctx.log("pdsh ended with status %s once on %s and not in 5 re-runs: counted" % (o1["rc"], c["files"]))
+            continue
         if o1["rc"] not in (0, 1):
             ctx.offender("crash", "pdsh ends with status %s while loading modules" % o1["rc"], {"case": case, "obs": o1})
             continue
